@@ -60,7 +60,7 @@ class P(Prop):
     def exhaustive_scopes(self, tier):
         if tier == "thorough":
             return ["every calendar day 1970-01-01..2099-12-31 x {00:00:00.000, 12:00:00.000, 23:59:59.999, random ms}",
-                    "every second of 28 Feb, 29 Feb/1 Mar, 31 Dec, 1 Jan for every year 1970..2099",
+                    "every second within 30 min of both midnights of 28 Feb, 29 Feb/1 Mar, 31 Dec, 1 Jan for every year 1970..2099; every second of those four days for 1970, 1971, 1972, 1999, 2000, 2099 and two seeded years",
                     "boundary days of 2100, 2200, 2300, 2400"]
         return ["boundary days (1 Jan, 28 Feb, 29 Feb or 1 Mar, 31 Dec) of every year 1970..2099 and of 2100, 2200, 2300, 2400 x 4 instants"]
 
@@ -86,17 +86,21 @@ class P(Prop):
         for (y, m, d) in days:
             for (h, mi, s, ms) in instants(y, m, d):
                 out.append({"kind": "day", "f": [y, m, d, h, mi, s, ms]})
-        # whole days second by second
+        # whole days second by second (a few years), and one-hour windows around every boundary midnight of every year
         if tier == "thorough":
-            ry = years
+            full = [1970, 1971, 1972, 1999, 2000, 2099, rng.choice(years), rng.choice(years)]
         else:
-            ry = [1970, 1972, rng.choice([y for y in years if leap(y)]), rng.choice([y for y in years if not leap(y)])]
+            full = []
+        ry = years if tier == "thorough" else [1970, 1972, rng.choice([y for y in years if leap(y)]), rng.choice([y for y in years if not leap(y)])]
         for y in ry:
             for (yy, m, d) in [(y, 2, 28), (y, 2, 29) if leap(y) else (y, 3, 1), (y, 12, 31), (y, 1, 1)]:
                 s0 = calendar.timegm((yy, m, d, 0, 0, 0))
-                if tier == "thorough":
+                if y in full:
                     for part in range(0, 86400, 7200):
                         out.append({"kind": "secs", "start": s0 + part, "n": 7200})
+                elif tier == "thorough":
+                    out.append({"kind": "secs", "start": max(0, s0 - 1800), "n": 3600})
+                    out.append({"kind": "secs", "start": s0 + 86400 - 1800, "n": 3600})
                 else:
                     out.append({"kind": "secs", "start": s0, "n": 600})
                     out.append({"kind": "secs", "start": s0 + 86400 - 600, "n": 600})
